@@ -47,7 +47,13 @@ def run(chk):
         RuleRunner(chk, "C05", fn, CONTRACTS[fn], CONTRACTS, dict(spec_b, arities=[1, 2])).run()
     rp = run_rules(chk, "C05", [], {})   # evidence boilerplate (lemma stats, trust base)
     declare_cases(chk)
-    return rp
+
+    def replayer(ob):
+        w = ob.witness or {}
+        if w.get("engine") == "direct":
+            return w
+        return rp(ob)
+    return replayer
 
 
 def product_patterns(chk):
@@ -105,5 +111,7 @@ def declare_cases(chk):
     """Declaring a property yields an operator with the same action and does not alter the operator it was applied to: the REAL
     WrapMeta.__call__ on real operator kinds with concrete payloads is a FRAME obligation checked in C18; here the contract used by
     every other proof (annotation_stub) is recorded as an assumption."""
-    chk.assume("WrapMeta.__call__ contract (same fields, annotations = old | {a}, input unchanged) is the stub used in all rule proofs; "
-               "its body is verified under C18 (flatten/unflatten round trip and frame)")
+    from props import c18
+    c18.wrapmeta_and_pytree(chk, prop="C05")
+    chk.assume("WrapMeta.__call__ contract (same fields, annotations = old | {a}, input unchanged) is the stub used in all rule proofs; its REAL body is "
+               "checked here on every constructible kind (finite enumeration; the code is kind-generic)")
